@@ -446,6 +446,18 @@ class CallMixin:
             return self.mk_choice("where", args[0], [args[1], args[2]])
         return None
 
+    def x_jax_numpy_select(self, args, kw, fr, node):
+        """jnp.select(condlist, choicelist, default): the first true condition wins."""
+        cl = args[0] if args else kw.get("condlist")
+        ch = args[1] if len(args) > 1 else kw.get("choicelist")
+        df = args[2] if len(args) > 2 else kw.get("default", const(0))
+        if cl is None or ch is None or cl.kind not in ("list", "tuple") or ch.kind not in ("list", "tuple") or len(cl.args[0]) != len(ch.args[0]):
+            return None
+        out = df
+        for c, v in reversed(list(zip(cl.args[0], ch.args[0]))):
+            out = self.mk_choice("where", c, [v, out])
+        return out
+
     # ---- mapping combinators
     def x_jax_vmap(self, args, kw, fr, node):
         return self._combinator("vmap", args, kw)
